@@ -13,7 +13,7 @@ LEVEL = "exploration"
 RULE = (
     "every class in MESSAGE_CLASSES and RETURN_MESSAGE_CLASSES (introspected), fields drawn over their declared "
     "ctypes widths with boundary bias, subroutine payloads from the C01 generator, arrays of length 0..64 with arbitrary "
-    "None patterns, all ErrorCode/Signal members; oracle: deserialize(bytes(m)) has the same class and equal fields. "
+    "None patterns (some of length 255..700), all ErrorCode/Signal members; oracle: deserialize(bytes(m)) has the same class and equal fields; histories: one message serialised, changed (in-place list edits, attribute assignment), serialised again; one byte string decoded, the result changed, decoded again. "
     "Non-trivial = array with both defined and undefined entries, or any field at a width boundary, or a subroutine "
     "payload with >=1 instruction; distinct by (class, field values)"
 )
@@ -74,8 +74,14 @@ def st_message():
     known[M.ErrorMessage] = st.fixed_dictionaries({"err_code": st.sampled_from([e.name for e in M.ErrorCode])})
     known[M.ReturnRegMessage] = st.fixed_dictionaries({"register": g.st_reg, "value": st_int_ct(I32)})
     val = st.none() | st_int_ct(I32)
+    # mostly short arrays; some around the sizes at which a block-wise or length-prefixed codec would switch paths
+    long_vals = st.sampled_from([255, 256, 257, 258, 300, 511, 512, 513, 700]).flatmap(
+        lambda n: st.tuples(st.lists(val, min_size=8, max_size=8), st.integers(0, 7), st.integers(1, 7)).map(
+            lambda t, n=n: [t[0][(i * t[2] + t[1] + i // 37) % 8] for i in range(n)]
+        )
+    )
     known[M.ReturnArrayMessage] = st.fixed_dictionaries(
-        {"address": st_int_ct(I32), "values": st.lists(val, min_size=0, max_size=64)}
+        {"address": st_int_ct(I32), "values": st.one_of(*([st.lists(val, min_size=0, max_size=64)] * 7 + [long_vals]))}
     )
     for direction, table in (("host", M.MESSAGE_CLASSES), ("return", M.RETURN_MESSAGE_CLASSES)):
         for _t, cls in table.items():
@@ -170,6 +176,124 @@ def check_message(case) -> None:
             raise Failure(f"msg:{cls.__name__}:{k}:ctor", case, f"constructor stored {got!r} for {k}={want!r}")
 
 
+# ---------------------------------------------------------------- one message object / one byte string used more than once
+
+
+def _fields_of(m, case):
+    """current field values of a message object, in the shape of case['fields']"""
+    from netqasm.backend import messages as M
+
+    if isinstance(m, M.ReturnArrayMessage):
+        return {"address": m.address, "values": list(m.values)}
+    return {k: _plain(getattr(m, k)) for k in case["fields"]}
+
+
+def st_history():
+    """a message that is serialised, changed through its public attributes (in place for the value list), and serialised
+    again; or a byte string that is decoded, the decoded object changed, and the same bytes decoded again"""
+    val = st.none() | st_int_ct(I32)
+    arr = st.fixed_dictionaries({"address": st.integers(0, 50), "values": st.lists(val, min_size=1, max_size=12)})
+    edit = st.one_of(
+        st.tuples(st.just("setitem"), st.integers(0, 11), val),
+        st.tuples(st.just("append"), val),
+        st.tuples(st.just("pop")),
+        st.tuples(st.just("assign"), st.lists(val, max_size=12)),
+        st.tuples(st.just("address"), st.integers(0, 50)),
+    )
+    a = st.tuples(arr, st.lists(edit, min_size=1, max_size=4), st.sampled_from(["reserialise", "reserialise-len", "redecode"])).map(
+        lambda t: {"kind": "history", "cls": "ReturnArrayMessage", "fields": t[0], "edits": [list(e) for e in t[1]], "mode": t[2]}
+    )
+    simple = st.one_of(
+        st.tuples(st.just("MsgDoneMessage"), st.just("msg_id"), st_int_ct(U32), st_int_ct(U32)),
+        st.tuples(st.just("ReturnRegMessage"), st.just("value"), st_int_ct(I32), st_int_ct(I32)),
+        st.tuples(st.just("InitNewAppMessage"), st.just("max_qubits"), st_int_ct(U8), st_int_ct(U8)),
+        st.tuples(st.just("StopAppMessage"), st.just("app_id"), st_int_ct(U32), st_int_ct(U32)),
+        st.tuples(st.just("OpenEPRSocketMessage"), st.just("remote_node_id"), st_int_ct(I32), st_int_ct(I32)),
+    )
+    b = st.tuples(simple, st.sampled_from(["reserialise", "redecode"])).map(
+        lambda t: {"kind": "history", "cls": t[0][0], "field": t[0][1], "v0": t[0][2], "v1": t[0][3], "mode": t[1]}
+    )
+    return a | b
+
+
+def _base_fields(case):
+    if case["cls"] == "ReturnArrayMessage":
+        return {"address": case["fields"]["address"], "values": list(case["fields"]["values"])}
+    base = {
+        "MsgDoneMessage": {"msg_id": 0},
+        "ReturnRegMessage": {"register": "R3", "value": 0},
+        "InitNewAppMessage": {"app_id": 7, "max_qubits": 0},
+        "StopAppMessage": {"app_id": 0},
+        "OpenEPRSocketMessage": {"app_id": 1, "epr_socket_id": 2, "remote_node_id": 0, "remote_epr_socket_id": 4, "min_fidelity": 5},
+    }[case["cls"]]
+    base = dict(base)
+    base[case["field"]] = case["v0"]
+    return base
+
+
+def check_history(case) -> None:
+    from netqasm.backend import messages as M
+
+    direction = "return" if case["cls"] in ("ReturnArrayMessage", "MsgDoneMessage", "ReturnRegMessage") else "host"
+    deser = M.deserialize_host_msg if direction == "host" else M.deserialize_return_msg
+    f0 = _base_fields(case)
+    sub = {"dir": direction, "cls": case["cls"], "fields": f0}
+
+    def apply_edits(m, f):
+        f = {k: (list(v) if isinstance(v, list) else v) for k, v in f.items()}
+        if case["cls"] != "ReturnArrayMessage":
+            setattr(m, case["field"], case["v1"])
+            f[case["field"]] = case["v1"]
+            return f
+        for e in case["edits"]:
+            if e[0] == "setitem" and f["values"]:
+                i = e[1] % len(f["values"])
+                m.values[i] = e[2]
+                f["values"][i] = e[2]
+            elif e[0] == "append":
+                m.values.append(e[1])
+                f["values"].append(e[1])
+            elif e[0] == "pop" and f["values"]:
+                m.values.pop()
+                f["values"].pop()
+            elif e[0] == "assign":
+                m.values = list(e[1])
+                f["values"] = list(e[1])
+            elif e[0] == "address":
+                m.address = e[1]
+                f["address"] = e[1]
+        return f
+
+    def same(m, f, what):
+        got = _fields_of(m, {"fields": {k: None for k in f if k != "register"}})
+        want = {k: v for k, v in f.items() if k != "register"}
+        if got != want:
+            raise Failure(f"history:{case['mode']}:{case['cls']}", case, f"{what}: fields {got} but the message holds {want}")
+
+    m = build_message(sub)
+    raw0 = bytes(m)
+    if case["mode"].startswith("reserialise"):
+        if case["mode"] == "reserialise-len":
+            len(m)
+        f1 = apply_edits(m, f0)
+        if case["mode"] == "reserialise-len":
+            if len(m) != len(bytes(m)):
+                raise Failure(f"history:{case['mode']}:{case['cls']}", case, f"len(msg)={len(m)} but it serialises to {len(bytes(m))} bytes")
+        same(deser(bytes(m)), f1, "serialised, changed, serialised again; decoding the second byte string gives")
+        # and a fresh message with the same final fields gives the same bytes
+        fresh = build_message({"dir": direction, "cls": case["cls"], "fields": f1})
+        if bytes(fresh) != bytes(m):
+            raise Failure(f"history:{case['mode']}:{case['cls']}", case, "a changed message serialises differently from a fresh message with the same fields")
+    else:
+        d1 = deser(raw0)
+        same(d1, f0, "first decode gives")
+        apply_edits(d1, f0)
+        d2 = deser(raw0)
+        if d2 is d1:
+            raise Failure(f"history:redecode:{case['cls']}:same-object", case, "decoding the same bytes twice returned one shared object")
+        same(d2, f0, "after the first decoded object was changed, decoding the same bytes again gives")
+
+
 def _boundary(case) -> bool:
     f = case["fields"]
     if case["cls"] == "ReturnArrayMessage":
@@ -196,10 +320,18 @@ def shard(ctx: Ctx) -> None:
             vals = case["fields"]["values"]
             labels.append("array:mixed" if nt else ("array:empty" if not vals else "array:uniform"))
         small = len(str(case)) < 300
+        if case["cls"] == "ReturnArrayMessage" and len(case["fields"]["values"]) > 64:
+            labels.append("array:long" + (">256" if len(case["fields"]["values"]) > 256 else ""))
         stt.case(case, nt, labels, sample=case if small else None)
         check_message(case)
 
     ctx.search(st_message(), body, n, name="c15")
+
+    def body_hist(case):
+        stt.case(case, True, ["history:" + case["mode"], "history:" + case["cls"]], sample=case)
+        check_history(case)
+
+    ctx.search(st_history(), body_hist, n // 4, name="c15-history", salt=5)
     if ctx.shard == 0:
         # complete enumeration of enum-valued messages and small None patterns
         from netqasm.backend import messages as M
@@ -228,6 +360,9 @@ def _try(ctx, case):
 
 def replay(case):
     try:
+        if case.get("kind") == "history":
+            check_history(case)
+            return None
         check_message(case)
     except Failure as f:
         return f
